@@ -3,7 +3,7 @@
 # Confirms a seeded change in its scratch worktree /tmp/mut/<tag>: patch applies on a clean checkout, the workspace test-suite passes with it,
 # the demonstration fails with it and passes without it. Writes /tmp/mut/out/<tag>/verify.txt
 tag=$1; demo=$2; feat=${3:-all_models}
-wt=/tmp/mut/$tag; out=/tmp/mut/out/$tag
+wt=/tmp/mut/${WT:-$tag}; out=/tmp/mut/out/$tag
 cd $wt || exit 2
 git checkout -- . ; rm -f tests/${demo}.rs
 git apply --check $out/patch.diff || { echo "PATCH DOES NOT APPLY" | tee $out/verify.txt; exit 1; }
